@@ -17,12 +17,20 @@ RULE = ("a family of dataclasses is generated as source text (depth <= 4; frozen
         "per sub-dict nested or dotted (one form per subtree), at top level as `changes_dict` or as keywords.  A malformed stream "
         "(both arguments, prefix conflicts in both orders, empty key components, dotted keys inside a dict value, a non-dataclass "
         "obj) is judged by the model only.  The real simple_parsing.replace is called; obj is deep-copied before and compared "
-        "after.  Non-trivial = a non-empty or malformed change set; distinct by full case.")
+        "after.  Non-trivial = a non-empty or malformed change set; distinct by full case.  replace_subgroups stream: families "
+        "of defaulted classes with subgroups() (class, functools.partial and frozen-instance tables), Optional / Union / nested "
+        "members and now and then an init=False field; ABSTRACT selections (path -> key | type | instance | None), a member "
+        "before the members below it, also child-only selections, unknown names, init=False / plain fields and unknown keys; "
+        "rendered flat (dotted), nested (with __key__) or mixed; the static facts the model needs (per field: annotation "
+        "holds a dataclass / is Optional, subgroup table, default_factory(); per class: cls()) are observed with the real helpers.")
 TRUSTED = ["Model/Replace.v dc_replace = CPython 3.12 dataclasses.replace for classes without __post_init__/InitVar "
            "(tied on every case through the level-by-level reference run with the real dataclasses.replace)"]
 ASSUMPTIONS = ["no generated field is called `obj` or `changes_dict` (replace(field_value, **field_changes) would bind them to its own parameters)",
                "no __post_init__, no InitVar; init=False fields have a leaf default",
-               "init=False fields are derived state: the frame condition lets them hold either what they held or what the constructor assigns"]
+               "init=False fields are derived state: the frame condition lets them hold either what they held or what the constructor assigns",
+               "replace_subgroups: generated instances are well typed - a field annotated with a dataclass (or a Union of them) holds "
+               "an instance, only Optional[...] fields hold None (selecting BELOW a member that is not there is the one input class "
+               "excluded by C18_subgroups, see C18_subgroups_absent_member_refuted)"]
 
 NAMES = ["a", "b", "c", "d", "x", "y", "lr", "name", "opt", "cfg", "w_1"]
 MAXDEPTH = 4
@@ -319,8 +327,8 @@ def gen_sub_schema(rng):
             kinds = ["subg", "subg", "subgf", "opt", "union", "int"]
             if i > 0:
                 kinds += ["nest", "nest", "nest"]
-            if rng.random() < 0.015:
-                kinds = ["noninit"]
+            if rng.random() < 0.07:
+                kinds = ["noninit"]      # a class with an init=False field: fine unless THAT field is selected
             kind = rng.choice(kinds)
             ls = sorted(leaves)
             if kind == "subg":
